@@ -98,7 +98,7 @@ func singleGen(idx int) (progCase, bool) {
 	return pc, true
 }
 
-var triggerVariants = []string{"literal", "expression", "call-arg", "two-triggers", "in-loop", "in-if-not-taken", "in-callee", "after-output", "in-try", "same-callback-twice"}
+var triggerVariants = []string{"import-only", "annotated-callback", "literal", "expression", "call-arg", "two-triggers", "in-loop", "in-if-not-taken", "in-callee", "after-output", "in-try", "same-callback-twice"}
 
 func triggerGen(idx int) (progCase, bool) {
 	v := triggerVariants[idx]
@@ -116,7 +116,17 @@ func triggerGen(idx int) (progCase, bool) {
 		return &hs.Trigger{Callback: cbn, Kind: "at", Event: "minute", Args: []hs.Expr{a}}
 	}
 	var body []hs.Stmt
+	stmt := true // a trigger statement is executed
 	switch v {
+	case "import-only":
+		// a trigger is imported (no value comes with it) and never used
+		stmt = false
+		body = []hs.Stmt{hs.Println(hs.S("nothing registered"), hs.V("x"))}
+	case "annotated-callback":
+		// the registration is declared on the function; main registers nothing itself
+		stmt = false
+		prog.RawItems = append(prog.RawItems, "#[trigger in minute(x * 2)]\nevent fn ann(elapsed: int) {\n    println(\"ann\");\n}\n")
+		body = []hs.Stmt{hs.Println(hs.S("declared"), hs.V("x"))}
 	case "literal":
 		body = []hs.Stmt{trig("cb", hs.I(5))}
 	case "expression":
@@ -143,7 +153,11 @@ func triggerGen(idx int) (progCase, bool) {
 	}
 	body = append(body, hs.LetS("z", hs.I(1)), hs.Println(hs.S("end"), hs.V("z")))
 	prog.Funcs = append(prog.Funcs, hs.Fn("main", nil, hs.Blk(nil, body...)))
-	return mkCase(prog, "trigger:"+v, "vm-only"), true
+	if !stmt {
+		return mkCase(prog, "trigger:"+v), true
+	}
+	// (the interpreter has no way to register a trigger: it ends such programs with a HostError)
+	return mkCase(prog, "trigger:"+v, "trigger-statement"), true
 }
 
 func init() {
